@@ -1,0 +1,23 @@
+//go:build verif
+
+// Contracts (machine-checked by /verif/engine, see /verif/DESIGN.md). Comment-only file.
+package geyser
+
+// ---- C40: Java profile names of Bedrock players ------------------------------------------------------
+//@ spec pred javaNameChar(c byte) = (c >= 'a' && c <= 'z') || (c >= 'A' && c <= 'Z') || (c >= '0' && c <= '9') || c == '_'
+
+// For every input string (any runes, any length) the result has 1..16 bytes, all from [A-Za-z0-9_].
+//@ func javaCompatibleUsername
+//@   props C40
+//@   loop 1: invariant len((&normalized).@sb) <= 16
+//@   loop 1: invariant forall i int :: 0 <= i && i < len((&normalized).@sb) ==> javaNameChar((&normalized).@sb[i])
+//@   ensures [length] len(result) >= 1 && len(result) <= 16
+//@   ensures [alphabet] forall i int :: 0 <= i && i < len(result) ==> javaNameChar(result[i])
+
+// The profile handed to the proxy carries the normalised name and the XUID-derived UUID.
+//@ func (*Integration).onGameProfile
+//@   props C40
+//@   at-call JavaUuid as uid: assert arg0 == bedrockData
+//@   at-call javaCompatibleUsername as norm
+//@   at-call SetGameProfile as set: assert [normalised-name] called(norm) && streq(arg1.Name, res(norm))
+//@   at-call SetGameProfile: assert [xuid-uuid] called(uid) && arg1.ID == res(uid, 0) && res(uid, 1) == nil
